@@ -129,10 +129,11 @@ Section InternedBuilder.
       ib_skipped Sig st' = ib_skipped Sig st /\
       ib_byte_cost Sig st' + WRAPPER_VBYTES * cpb + ib_block_cost Sig st' <= maxc.
   Proof.
-    unfold i_step. cbn [c_mode c_cpb c_max cfgC].
+    unfold i_step, i_step_gen. cbn [c_mode c_cpb c_max cfgC].
     destruct (wmul Checked U64 WRAPPER_VBYTES cpb) as [wrapper|] eqn:Ew; [|intros E; inv_pair E].
     destruct (add4 Checked _ _ _ I_MIN_COST_THRESHOLD) as [t1|] eqn:E1; [|intros E; inv_pair E].
     destruct (maxc <? t1); [intros E; inv_pair E|].
+    cbn [andb]. destruct (maxc <? ia_cost Sig a); [intros E; apply i_skip_res in E; discriminate|].
     destruct (add4 Checked _ _ _ (ia_cost Sig a)) as [t2|] eqn:E2; [|intros E; inv_pair E].
     destruct (maxc <? t2); [intros E; apply i_skip_res in E; discriminate|].
     destruct (i_batch cfgC _ [] 0) as [items nbc| |] eqn:Eb; [|intros E; inv_pair E|intros E; inv_pair E].
@@ -157,10 +158,11 @@ Section InternedBuilder.
               ib_items Sig s' = ib_items Sig s /\ ib_sig Sig s' = ib_sig Sig s /\
               ib_block_cost Sig s' = ib_block_cost Sig s /\ ib_byte_cost Sig s' = ib_byte_cost Sig s).
     { intros s s' r0. unfold i_skip. destruct (wadd _ _ _ _); intros E; inv_pair E; auto. }
-    unfold i_step. cbn [c_mode c_cpb c_max cfgC].
+    unfold i_step, i_step_gen. cbn [c_mode c_cpb c_max cfgC].
     destruct (wmul Checked U64 WRAPPER_VBYTES cpb) as [wrapper|] eqn:Ew; [|intros E; inv_pair E; auto].
     destruct (add4 Checked _ _ _ I_MIN_COST_THRESHOLD) as [t1|] eqn:E1; [|intros E; inv_pair E; auto].
     destruct (maxc <? t1); [intros E; inv_pair E; auto|].
+    cbn [andb]. destruct (maxc <? ia_cost Sig a); [intros E _; eapply Hskip; eauto|].
     destruct (add4 Checked _ _ _ (ia_cost Sig a)) as [t2|] eqn:E2; [|intros E; inv_pair E; auto].
     destruct (maxc <? t2); [intros E _; eapply Hskip; eauto|].
     destruct (i_batch cfgC _ [] 0) as [items nbc| |] eqn:Eb; [|intros E; inv_pair E; auto|intros E; inv_pair E; auto].
@@ -185,12 +187,13 @@ Section InternedBuilder.
     { intros s s' r0. unfold i_skip. cbn [c_mode cfgC cfgW].
       destruct (wadd Checked U32 _ 1) as [k|] eqn:E; [rewrite (wadd_wrap_of_checked _ _ _ _ E); auto|].
       intros E2; inv_pair E2. intros H; now contradiction H. }
-    unfold i_step. cbn [c_mode c_cpb c_max cfgC cfgW].
+    unfold i_step, i_step_gen. cbn [c_mode c_cpb c_max cfgC cfgW].
     destruct (wmul Checked U64 WRAPPER_VBYTES cpb) as [wrapper|] eqn:Ew; [|intros E; inv_pair E; intros H; now contradiction H].
     rewrite (wmul_wrap_of_checked _ _ _ _ Ew).
     destruct (add4 Checked _ _ _ I_MIN_COST_THRESHOLD) as [t1|] eqn:E1; [|intros E; inv_pair E; intros H; now contradiction H].
     rewrite (add4_wrap_of_checked _ _ _ _ _ E1).
     destruct (maxc <? t1); [auto|].
+    cbn [andb]. destruct (maxc <? ia_cost Sig a); [apply Hskip|].
     destruct (add4 Checked _ _ _ (ia_cost Sig a)) as [t2|] eqn:E2; [|intros E; inv_pair E; intros H; now contradiction H].
     rewrite (add4_wrap_of_checked _ _ _ _ _ E2).
     destruct (maxc <? t2); [apply Hskip|].
@@ -422,9 +425,10 @@ Section CompressedBuilder.
       block_of st' = block_of st + ca_cost Sig hint a /\
       synced st' /\ byte_of st' + block_of st' <= maxc.
   Proof.
-    unfold c_step. cbn [c_mode c_cpb c_max cfgC].
+    unfold c_step, c_step_gen. cbn [c_mode c_cpb c_max cfgC].
     destruct (add3 Checked _ _ C_MIN_COST_THRESHOLD) as [t1|] eqn:E1; [|intros E; inv_pair E].
     destruct (maxc <? t1); [intros E; apply c_skip_res in E; destruct E; discriminate|].
+    cbn [andb]. destruct (maxc <? ca_cost Sig hint a); [intros E; apply c_skip_res in E; destruct E; discriminate|].
     destruct (add3 Checked _ _ (ca_cost Sig hint a)) as [t2|] eqn:E2; [|intros E; inv_pair E].
     destruct (maxc <? t2); [intros E; apply c_skip_res in E; destruct E; discriminate|].
     destruct (items_of _) as [items|] eqn:Ei; [|intros E; inv_pair E].
@@ -448,9 +452,11 @@ Section CompressedBuilder.
     sig_of st' = sig_of st /\ block_of st' = block_of st /\
     (byte_of st' = byte_of st \/ synced st').
   Proof.
-    unfold c_step. cbn [c_mode c_cpb c_max cfgC].
+    unfold c_step, c_step_gen. cbn [c_mode c_cpb c_max cfgC].
     destruct (add3 Checked _ _ C_MIN_COST_THRESHOLD) as [t1|] eqn:E1; [|intros E; inv_pair E; intros _ H; now contradiction H].
     destruct (maxc <? t1).
+    { intros E _ Hp. apply c_skip_res in E. destruct E as [_ E]. destruct (E Hp) as (-> & -> & -> & ->). auto 6. }
+    cbn [andb]. destruct (maxc <? ca_cost Sig hint a).
     { intros E _ Hp. apply c_skip_res in E. destruct E as [_ E]. destruct (E Hp) as (-> & -> & -> & ->). auto 6. }
     destruct (add3 Checked _ _ (ca_cost Sig hint a)) as [t2|] eqn:E2; [|intros E; inv_pair E; intros _ H; now contradiction H].
     destruct (maxc <? t2).
@@ -471,10 +477,11 @@ Section CompressedBuilder.
   Lemma c_step_wrap_of_checked st a st' r :
     stepC st a = (st', r) -> r <> RPanic -> stepW st a = (st', r).
   Proof.
-    unfold c_step. cbn [c_mode c_cpb c_max cfgC cfgW].
+    unfold c_step, c_step_gen. cbn [c_mode c_cpb c_max cfgC cfgW].
     destruct (add3 Checked _ _ C_MIN_COST_THRESHOLD) as [t1|] eqn:E1; [|intros E; inv_pair E; intros H; now contradiction H].
     rewrite (add3_wrap_of_checked _ _ _ _ E1).
     destruct (maxc <? t1); [apply c_skip_wrap|].
+    cbn [andb]. destruct (maxc <? ca_cost Sig hint a); [apply c_skip_wrap|].
     destruct (add3 Checked _ _ (ca_cost Sig hint a)) as [t2|] eqn:E2; [|intros E; inv_pair E; intros H; now contradiction H].
     rewrite (add3_wrap_of_checked _ _ _ _ E2).
     destruct (maxc <? t2); [apply c_skip_wrap|].
